@@ -31,6 +31,7 @@ static std::string run_child(std::function<void(FILE*)> f, std::string& status, 
         setvbuf(o, NULL, _IOLBF, 0);
         f(o);
         fflush(o);
+        VERIF_COV_DUMP();
         _exit(0);
     }
     ::close(fd[1]);
